@@ -1,15 +1,16 @@
 CONSTANTS
   Server = {1, 2, 3}
-  Campaigners = {1, 3}
-  MaxTerm = 2
-  MaxProposals = 1
+  Campaigners = {1}
+  MaxTerm = 1
+  MaxProposals = 2
   MaxCrashes = 0
   MaxDrops = 0
   MaxDups = 1
   MaxHeartbeats = 0
   MaxLog = 3
-  MaxNet = 6
+  MaxNet = 3
   MaxEnts = 0
+  LossySend = TRUE
   SimDepth = 0
   W_CommitAnyTerm = FALSE
   W_VoteIgnoreVoted = FALSE
@@ -22,4 +23,4 @@ INIT Init
 NEXT Next
 CONSTRAINT NetBound
 VIEW view
-INVARIANT EmitAttack
+INVARIANT EmitAttackM
